@@ -507,6 +507,15 @@ ibz_bitsize(const ibz_t *a)
     return (int)mpz_sizeinbase(*a, 2);
 }
 
+/** @brief 2-adic valuation of a (0 if a is 0) */
+int
+ibz_two_adic(const ibz_t *a)
+{
+    if (mpz_sgn(*a) == 0)
+        return 0;
+    return (int)mpz_scan1(*a, 0);
+}
+
 /* etc....*/
 
 /** @}
